@@ -299,7 +299,7 @@ func genCase(r *gen.Rand, i int) any {
 				c.Ops = append(c.Ops, Op{Kind: "fetch"})
 				break
 			}
-			f := gen.Pick(r, [][]byte{[]byte("PS"), []byte("PI"), []byte("S"), []byte("Other"), []byte("By")})
+			f := gen.Pick(r, [][]byte{[]byte("PS"), []byte("PI"), []byte("S"), []byte("Other"), []byte("By"), []byte("PB"), []byte("B")})
 			v := genStr(r)
 			if string(f) == "PI" {
 				v = []byte(strconv.FormatInt(genInt(r), 10))
@@ -951,7 +951,7 @@ func run(ci any) (res obs.Result) {
 				if err != nil {
 					w.fail("roundtrip", fmt.Sprintf("%s after a successful Save returned %v", op.Kind, err))
 				} else if d := ro.diff(lastSaved, got); d != "" {
-					w.fail("roundtrip:"+d, fmt.Sprintf("%s after Save differs from the saved entity in %s: saved %s fetched %s", op.Kind, d, jsonText(lastSaved), jsonText(got)))
+					w.fail("roundtrip:"+d, fmt.Sprintf("%s after Save differs from the saved entity in %s: saved %s fetched %s", op.Kind, d, show(lastSaved), show(got)))
 				}
 			}
 			sig = append(sig, op.Kind, fmt.Sprint(err == nil))
@@ -1011,6 +1011,16 @@ func jsaveRes(o saveOut) string {
 	default:
 		return "JSaveErr"
 	}
+}
+
+// show prints an entity for messages (float vectors as bit patterns: NaN has no JSON form).
+func show(e any) string {
+	if h, ok := e.(*HEnt); ok {
+		x := *h
+		x.V32, x.V64 = nil, nil
+		return jsonText(&x) + " V32=" + u32list(h.V32) + " V64=" + u64list(h.V64)
+	}
+	return jsonText(e)
 }
 
 // genSafe turns arbitrary bytes into valid UTF-8 (JSON documents cannot carry anything else).
